@@ -278,8 +278,6 @@ package mq
 //@   requires w != nil
 //@   assigns $writes
 
-
-
 //@ func (*Connect).WriteTo
 //@   requires w != nil
 //@   assigns $writes, $alloc
